@@ -34,6 +34,10 @@ pub enum Form {
     Wildcard,
     /// `from mX import nosuchitem`
     MissingItem,
+    /// `from mR.sub import item` where module R exports module X as `sub`
+    NestedItem,
+    /// `from mR.sub import *`
+    NestedWildcard,
 }
 
 #[derive(Clone, Debug)]
@@ -44,6 +48,8 @@ pub struct ImportStmt {
     pub in_try: bool,
     /// unique id (alias suffix, marker for the recorded value)
     pub id: u32,
+    /// for the nested forms: the root module R whose export `sub` is module `target`
+    pub via: usize,
 }
 
 #[derive(Clone, Debug)]
@@ -62,6 +68,11 @@ pub enum Step {
     ExportLazy(ImportStmt),
     /// top-level assignment `t<k> = v` (top-level export mode)
     TopAssign(u32, i64),
+    /// `export sub = mX` (after an `import mX`): a module-valued export
+    ExportSub(usize),
+    /// read another module's canary export by its bare name: visible only through a wildcard
+    /// import of exactly that module (or in that module itself)
+    ReadCanary(u32, usize),
 }
 
 #[derive(Clone, Debug, Default)]
@@ -109,6 +120,20 @@ pub struct Scenario {
     pub world: World,
     pub ops: Vec<HostOp>,
     pub run_import_tests: bool,
+}
+
+/// (root, leaf) pairs: module `root` exports module `leaf` as `sub`
+fn world_subs(modules: &[ModuleDef]) -> Vec<(usize, usize)> {
+    modules
+        .iter()
+        .enumerate()
+        .filter_map(|(i, m)| {
+            m.top.iter().find_map(|s| match s {
+                Step::ExportSub(t) => Some((i, *t)),
+                _ => None,
+            })
+        })
+        .collect()
 }
 
 fn mname(i: usize) -> String {
@@ -165,6 +190,14 @@ fn render_import(out: &mut Vec<String>, indent: usize, s: &ImportStmt, exported_
             lines.push(format!("from {m} import nosuchitem"));
             lines.push(format!("val({}, 0)", s.id));
         }
+        (Form::NestedItem, Some(item)) => {
+            lines.push(format!("from {}.sub import {item} as q{}", mname(s.via), s.id));
+            lines.push(format!("val({}, q{})", s.id, s.id));
+        }
+        (Form::NestedWildcard, Some(item)) => {
+            lines.push(format!("from {}.sub import *", mname(s.via)));
+            lines.push(format!("val({}, {item})", s.id));
+        }
         (_, None) => {
             lines.push(format!("import {m}"));
             lines.push(format!("val({}, 0)", s.id));
@@ -208,6 +241,14 @@ fn render_steps(out: &mut Vec<String>, indent: usize, steps: &[Step], module: us
                 out.push(format!("{pad}  return {}", i.id));
             }
             Step::TopAssign(k, v) => out.push(format!("{pad}t{k} = {v}")),
+            Step::ExportSub(t) => out.push(format!("{pad}export sub = {}", mname(*t))),
+            Step::ReadCanary(id, r) => {
+                out.push(format!("{pad}c{id} = try"));
+                out.push(format!("{pad}  {}", ename(*r, 9)));
+                out.push(format!("{pad}catch e"));
+                out.push(format!("{pad}  -1"));
+                out.push(format!("{pad}val({id}, c{id})"));
+            }
         }
     }
     if steps.is_empty() {
@@ -356,11 +397,23 @@ pub fn gen_scenario(seed: u64) -> Scenario {
                 form,
                 in_try: r.chance(1, 5),
                 id: id(),
+                via: 0,
             }));
         }
         top.push(Step::Export(1, 10 * (m as i64 + 1) + 1));
+        // the canary: never imported by name, only reachable through a wildcard import
+        top.push(Step::Export(9, 900 + m as i64));
         if r.chance(1, 3) {
             top.push(Step::Reassign(1, 777));
+        }
+        // a module-valued export (for nested import paths): `import mX` + `export sub = mX`
+        if m + 1 < n && r.chance(1, 3) {
+            let t = m + 1 + r.usize_below(n - m - 1);
+            top.push(Step::Import(ImportStmt { target: t, form: Form::Plain, in_try: false, id: id(), via: 0 }));
+            top.push(Step::ExportSub(t));
+        }
+        if r.chance(1, 4) {
+            top.push(Step::ReadCanary(id(), r.usize_below(n)));
         }
         if r.chance(1, 2) {
             top.push(Step::Export(2, 10 * (m as i64 + 1) + 2));
@@ -425,7 +478,7 @@ pub fn gen_scenario(seed: u64) -> Scenario {
             ]);
         }
     }
-    let world = World { modules, disk };
+    let world = World { modules: modules.clone(), disk };
 
     // the host history
     let nops = r.range(2, 7) as usize;
@@ -452,16 +505,38 @@ pub fn gen_scenario(seed: u64) -> Scenario {
                     if form == Form::FromItem {
                         from_item_targets.push(target);
                     }
-                    let stmt = ImportStmt {
+                    let mut stmt = ImportStmt {
                         target,
                         form,
                         in_try: r.chance(2, 5),
                         id: id(),
+                        via: 0,
                     };
+                    // nested import paths through a module-valued export
+                    if r.chance(1, 4) {
+                        let roots: Vec<(usize, usize)> = world_subs(&modules);
+                        if !roots.is_empty() {
+                            let (root, leaf) = *r.pick(&roots);
+                            stmt.via = root;
+                            stmt.target = leaf;
+                            stmt.form = if r.chance(1, 2) || from_item_targets.contains(&leaf) {
+                                Form::NestedItem
+                            } else {
+                                Form::NestedWildcard
+                            };
+                        }
+                    }
+                    if stmt.form == Form::FromItem && !from_item_targets.contains(&stmt.target) {
+                        from_item_targets.push(stmt.target);
+                    }
                     if r.chance(1, 6) {
                         lazies.push(stmt.id);
                         let stmt = ImportStmt {
-                            form: if stmt.form == Form::Wildcard { Form::Plain } else { stmt.form },
+                            form: match stmt.form {
+                                Form::Wildcard => Form::Plain,
+                                Form::NestedWildcard => Form::NestedItem,
+                                f => f,
+                            },
                             ..stmt
                         };
                         top.push(Step::ExportLazy(stmt));
@@ -475,6 +550,10 @@ pub fn gen_scenario(seed: u64) -> Scenario {
                             top.push(Step::Import(stmt));
                         }
                     }
+                }
+                for _ in 0..r.below(3) {
+                    let at = 1 + r.usize_below(top.len());
+                    top.insert(at, Step::ReadCanary(id(), r.usize_below(n)));
                 }
                 if export_top_level {
                     top.push(Step::TopAssign(1, 5));
@@ -575,6 +654,10 @@ pub struct ModelState {
     /// host-scope imports of that name find the exported value first (documented REPL
     /// behaviour: exports persist and are searched before the disk)
     host_bound_modules: BTreeMap<usize, Exports>,
+    /// per scope (host script or module being run): export sets made visible by wildcard imports
+    wild_stack: Vec<Vec<Exports>>,
+    /// names that wildcard imports exported into the host's exports map in top-level export mode
+    host_wild_exports: Exports,
     pub gap: Option<String>,
     pub sig: Vec<String>,
 }
@@ -599,6 +682,8 @@ impl ModelState {
             lazies: BTreeMap::new(),
             run_import_tests: sc.run_import_tests,
             host_bound_modules: BTreeMap::new(),
+            wild_stack: vec![vec![]],
+            host_wild_exports: vec![],
             gap: None,
             sig: vec![],
         }
@@ -656,6 +741,7 @@ impl ModelState {
             return Ok(e.clone());
         }
         self.in_progress.push(path.clone());
+        self.wild_stack.push(vec![]);
         let mut exports: Exports = vec![];
         let r = (|| -> Result<(), ErrClass> {
             self.run_steps(&def.top, m, &mut exports, cx)?;
@@ -668,6 +754,7 @@ impl ModelState {
             Ok(())
         })();
         self.in_progress.pop();
+        self.wild_stack.pop();
         match r {
             Ok(()) => {
                 self.cache.insert(path, exports.clone());
@@ -689,7 +776,37 @@ impl ModelState {
         cx: &mut RunCtx,
     ) -> Result<(), ErrClass> {
         let r = (|| -> Result<String, ErrClass> {
-            let exports = self.import(s.target, cx)?;
+            let nested = matches!(s.form, Form::NestedItem | Form::NestedWildcard);
+            let exports = if nested {
+                // import the root, then read its module-valued export `sub`
+                let root = self.import(s.via, cx)?;
+                let prefix = "sub/";
+                let sub: Exports = root
+                    .iter()
+                    .filter_map(|(n, v)| n.strip_prefix(prefix).map(|x| (x.to_string(), *v)))
+                    .collect();
+                if !root.iter().any(|(n, _)| n == "sub") {
+                    // the root (in the version that was loaded) has no `sub` export
+                    return Err(ErrClass::MissingItem);
+                }
+                sub
+            } else {
+                self.import(s.target, cx)?
+            };
+            if matches!(s.form, Form::Wildcard | Form::NestedWildcard) {
+                self.wild_stack.last_mut().unwrap().push(exports.clone());
+                if cx.export_top_level && self.in_progress.is_empty() {
+                    for (n, v) in &exports {
+                        if !n.contains('/') && n != "sub" {
+                            if let Some(e) = self.host_wild_exports.iter_mut().find(|(k, _)| k == n) {
+                                e.1 = *v;
+                            } else {
+                                self.host_wild_exports.push((n.clone(), *v));
+                            }
+                        }
+                    }
+                }
+            }
             if cx.export_top_level
                 && self.in_progress.is_empty()
                 && matches!(s.form, Form::Plain | Form::As)
@@ -769,6 +886,42 @@ impl ModelState {
                     }
                 }
                 Step::TopAssign(..) => {}
+                Step::ExportSub(t) => {
+                    // the module was imported by the preceding step: its completed exports
+                    let path_exports: Option<Exports> = self
+                        .resolve_quiet(*t)
+                        .and_then(|p| self.cache.get(&p).cloned());
+                    let Some(sub) = path_exports else {
+                        self.gap = Some("ExportSub of a module that is not cached".into());
+                        return Ok(());
+                    };
+                    exports.retain(|(n, _)| n != "sub" && !n.starts_with("sub/"));
+                    exports.push(("sub".into(), 0));
+                    for (n, v) in sub {
+                        if !n.contains('/') && n != "sub" {
+                            exports.push((format!("sub/{n}"), v));
+                        }
+                    }
+                }
+                Step::ReadCanary(id, r) => {
+                    let name = ename(*r, 9);
+                    // lookup order of a non-local: wildcard imports of this scope (most recent
+                    // first), then the scope's own exports
+                    let mut v: Option<i64> = None;
+                    for w in self.wild_stack.last().unwrap().iter().rev() {
+                        if let Some((_, x)) = w.iter().find(|(n, _)| *n == name) {
+                            v = Some(*x);
+                            break;
+                        }
+                    }
+                    if v.is_none() {
+                        v = exports.iter().find(|(n, _)| *n == name).map(|e| e.1);
+                    }
+                    if v.is_none() && module == usize::MAX {
+                        v = self.host_wild_exports.iter().find(|(n, _)| *n == name).map(|e| e.1);
+                    }
+                    cx.out.vals.push((*id, v.unwrap_or(-1).to_string()));
+                }
             }
         }
         Ok(())
@@ -795,8 +948,19 @@ impl ModelState {
         Ok(())
     }
 
+    fn resolve_quiet(&self, m: usize) -> Option<String> {
+        let name = mname(m);
+        match self.world.disk[m] {
+            Disk::File | Disk::Both => Some(format!("{name}.koto")),
+            Disk::Dir => Some(format!("{name}/main.koto")),
+            _ => None,
+        }
+    }
+
     pub fn apply(&mut self, op: &HostOp) -> OpPrediction {
         let mut out = OpPrediction::default();
+        // every host operation starts a new scope
+        self.wild_stack = vec![vec![]];
         match op {
             HostOp::Run { script, plan, export_top_level } => {
                 let mut cx = RunCtx { out: &mut out, plan, export_top_level: *export_top_level, top_level_bindings: vec![] };
